@@ -7,7 +7,7 @@
 //! and any process-global cache keyed too coarsely shows up as cross-talk.
 
 use crate::prng::{derive, Rng};
-use crate::sched::{self, SEAM_CLONE, SEAM_DEBUG, SEAM_DEFAULT, SEAM_EQ, SEAM_FROMSTR, SEAM_OP, SEAM_SUBS};
+use crate::sched::{self, SEAM_CLONE, SEAM_DEBUG, SEAM_DEFAULT, SEAM_DROP, SEAM_EQ, SEAM_FROMSTR, SEAM_OP, SEAM_SUBS};
 use exmex::prelude::*;
 use exmex::{
     literal_matcher_from_pattern, BinOp, DeepEx, DiffDataType, ExResult, FloatOpsFactory,
@@ -61,6 +61,12 @@ impl Clone for SimNum {
     fn clone(&self) -> Self {
         sched::point(SEAM_CLONE);
         SimNum(self.0)
+    }
+}
+impl Drop for SimNum {
+    fn drop(&mut self) {
+        // scheduling only; faults are never injected here (is_user_seam excludes it)
+        sched::point(SEAM_DROP);
     }
 }
 impl Default for SimNum {
@@ -855,4 +861,26 @@ pub fn eval_str_obs(text: &str) -> String {
         Ok(v) => format!("ok:{}", v.show()),
         Err(e) => format!("err:{}", e.msg()),
     }
+}
+
+/// Initialises exmex' own four process-global regexes (two in the tokenizer, the matchers of
+/// `Val` and of the macro-generated boolean matcher) through an operator table that nothing
+/// else uses, so that per-table, per-type or per-text first-use state of the kinds under test
+/// stays untouched. Used by fresh-process first-use runs: with allocator scheduling points on,
+/// a simulated thread must not be parked inside a `Once` initialiser (the regex compilation).
+pub fn warm_exmex_globals() {
+    #[derive(Clone, Debug, PartialEq)]
+    struct WarmOps;
+    impl MakeOperators<f64> for WarmOps {
+        fn make<'a>() -> Vec<Operator<'a, f64>> {
+            vec![
+                Operator::make_bin("+", BinOp { apply: |a, b| a + b, prio: 0, is_commutative: true }),
+                Operator::make_unary("zin", |a: f64| a.sin()),
+            ]
+        }
+    }
+    let _ = FlatEx::<f64, WarmOps, NumberMatcher>::parse("zin(x)+ziny+1");
+    let _ = ValMatcher::is_literal("1");
+    let _ = BoolMatcher::is_literal("true");
+    let _ = pad_names(); // the harness' own OnceLock
 }
